@@ -110,8 +110,8 @@ const NSEC_CLASSES: [u32; 16] = [
 fn gen_nsecs(c: &mut Ctx) -> u32 {
     match c.rng.below(6) {
         0 | 1 => *c.rng.pick(&NSEC_CLASSES),
-        2 | 3 => c.rng.below(1_000_000_000) as u32,
-        4 => 1_000_000_000 + c.rng.below(1_000_000_000) as u32,
+        2 | 3 => c.rng.nanos(),
+        4 => 1_000_000_000 + c.rng.nanos(),
         _ => c.rng.next() as u32,
     }
 }
@@ -208,8 +208,8 @@ fn gen_dt(c: &mut Ctx, pts: &[i128]) -> NaiveDateTime {
     };
     let frac: u32 = match c.rng.below(5) {
         0 => *c.rng.pick(&[0u32, 1, 999_999_999, 1_000_000_000, 1_999_999_999, 145_224_192, 145_224_191, 145_224_193, 854_775_807, 854_775_808, 854_775_806, 999_999, 1_000_000, 999, 1000]),
-        1 => 1_000_000_000 + c.rng.below(1_000_000_000) as u32,
-        _ => c.rng.below(1_000_000_000) as u32,
+        1 => 1_000_000_000 + c.rng.nanos(),
+        _ => c.rng.nanos(),
     };
     let t = NaiveTime::from_num_seconds_from_midnight_opt(secs, 0).unwrap().with_nanosecond(frac).unwrap();
     NaiveDateTime::new(date, t)
@@ -599,7 +599,7 @@ pub fn run(c: &mut Ctx) {
         let s = gen_secs(c, &pts);
         let n = match c.rng.below(3) {
             0 => *c.rng.pick(&[0u32, 1, 999_999_999, 500_000_000, 999_999_998]),
-            _ => c.rng.below(1_000_000_000) as u32,
+            _ => c.rng.nanos(),
         };
         sts.push((s, n));
     }
